@@ -376,6 +376,47 @@ class PW:
                     else:
                         out.append((self.index(base, k, n), d2))
             return out
+        if isinstance(n, ast.BoolOp) and any(isinstance(v, (ast.Call, ast.IfExp, ast.Subscript, ast.BinOp, ast.Name, ast.Constant)) for v in n.values) \
+                and not all(isinstance(v, (ast.Compare, ast.BoolOp)) or (isinstance(v, ast.UnaryOp) and isinstance(v.op, ast.Not)) for v in n.values):
+            # `a or b` / `a and b` over values: Python hands on the first operand that decides, and 0.0 / None are falsy
+            # (a table row whose tax is $0 "is not there" for `lookup(...) or fallback(...)`)
+            is_or = isinstance(n.op, ast.Or)
+            pending = [(None, dom)]
+            out = []
+            for k, operand in enumerate(n.values):
+                nxt = []
+                last = k == len(n.values) - 1
+                for (_prev, d0) in pending:
+                    for (v, d) in self.eval_split(operand, env, d0):
+                        if isinstance(v, Aff) and v.a != 0:
+                            zero = -v.b / v.a
+                            truthy_parts, falsy_parts = [], []
+                            for iv in d:
+                                lo_, rest = iv.split_lt(zero, True)
+                                if lo_:
+                                    truthy_parts.append(lo_)
+                                if rest:
+                                    pt, hi_ = rest.split_lt(zero, False)
+                                    if pt:
+                                        falsy_parts.append(pt)
+                                    if hi_:
+                                        truthy_parts.append(hi_)
+                            parts = [(True, truthy_parts), (False, falsy_parts)]
+                        else:
+                            tv = not (v is None or v is False or v == '' or (isinstance(v, Aff) and v.b == 0) or (isinstance(v, (int, float)) and not isinstance(v, bool) and v == 0)
+                                      or (isinstance(v, (list, tuple, dict)) and len(v) == 0))
+                            parts = [(tv, d)]
+                        for (tv, dd) in parts:
+                            if not dd:
+                                continue
+                            if last or tv == is_or:
+                                out.append((v, dd))          # this operand is the result
+                            else:
+                                nxt.append((v, dd))
+                pending = nxt
+                if not pending:
+                    break
+            return out
         if isinstance(n, ast.BoolOp) or isinstance(n, ast.Compare) or (isinstance(n, ast.UnaryOp) and isinstance(n.op, ast.Not)):
             if self.mentions_x(n, env):
                 return [(t, d) for (t, d) in self.cond(n, env, dom)]
